@@ -876,5 +876,32 @@ func c04RaceClass(trace []string, writer, prefix string) string {
 	if firstPut > lastList {
 		return "index-written-after-revoker-listed"
 	}
+	// The known second shape has the revoker LOOK THE CHILD UP after it listed the index entry
+	// (its token entry or its lease is not written yet, revokeInternal finds nothing to revoke and returns). A walk
+	// that had the entry in front of it and never even read the child's token entry is
+	// something else (e.g. the entry discarded as a leftover): its own class, not a known one.
+	if prefix == "sys/token/parent/" && firstPut >= 0 {
+		child := ""
+		for _, tr := range trace {
+			if strings.HasPrefix(tr, writer+":put:"+dir) {
+				child = strings.TrimPrefix(tr, writer+":put:"+dir)
+				break
+			}
+		}
+		if child != "" {
+			looked := false
+			for i, tr := range trace {
+				// any read of the revoker that concerns the child itself (its token entry, its lease,
+				// its own children) - the index entry it was listed from does not count
+				if i > firstPut && strings.HasPrefix(tr, "rev:") && strings.Contains(tr, child) && !strings.Contains(tr, dir+child) &&
+					(strings.HasPrefix(tr, "rev:get:") || strings.HasPrefix(tr, "rev:list:") || strings.HasPrefix(tr, "rev:listpage:")) {
+					looked = true
+				}
+			}
+			if !looked {
+				return "revoker-saw-index-but-never-read-the-token-entry"
+			}
+		}
+	}
 	return "revoker-saw-index"
 }
